@@ -89,7 +89,15 @@ where
         let r = match self.0 {
             Inner::Dead => return Err(io::Error::new(io::ErrorKind::BrokenPipe, "body is dead")),
             Inner::Raw(ref mut w) => w.flush(),
-            Inner::Gzipped(ref mut w) => w.flush(),
+            // flate2 (as of 1.0.33) asks the compressor for a sync flush before making room in its
+            // 32 KiB staging buffer. If the preceding `write` left that buffer full (a large,
+            // poorly compressible write), the request is lost: the flush only drains what was
+            // already compressed, and the rest of the accepted input stays in the compressor.
+            // That pass always leaves the staging buffer empty, so a second one does flush.
+            Inner::Gzipped(ref mut w) => match w.flush() {
+                Ok(()) => w.flush(),
+                e => e,
+            },
         };
         if r.is_err() {
             self.0 = Inner::Dead;
